@@ -18,6 +18,12 @@ def run(tier, seed):
                        os.path.join(d, "EventualProto.tla"), os.path.join(d, "EventualProtoEarly.cfg"), timeout=600, expect="violation")
     if not r["violated"]:
         raise vlib.Broken("the ready-before-lock variant of EventualProto is not rejected: the invariants are vacuous")
+    vlib.tlc_check(chk, "EventualProto with a consumer that recycles the eventual (test, reset, wait for the next set), exhaustive",
+                   os.path.join(d, "EventualProto.tla"), os.path.join(d, "EventualProtoRecycle.cfg"), timeout=600)
+    r = vlib.tlc_check(chk, "EventualProto releasing the lock before waking the waiters (must be violated: reset with waiters, stale wake-up)",
+                       os.path.join(d, "EventualProto.tla"), os.path.join(d, "EventualProtoUnlockFirst.cfg"), timeout=600, expect="violation")
+    if not r["violated"]:
+        raise vlib.Broken("the unlock-before-broadcast variant of EventualProto is not rejected: the invariants are vacuous")
     vlib.history_check(chk, "d_sync", ["eventual"], "H_Eventual", quick, seed,
                        what="eventual history is not a history of a set-once/wait/test/reset object")
     vlib.history_check(chk, "d_sync", ["future"], "H_Future", quick, seed,
